@@ -3135,6 +3135,15 @@ class DuckDBGenerator(generator.Generator):
             )
         return super().in_sql(expression)
 
+    def is_sql(self, expression: exp.Is) -> str:
+        # DuckDB's IS only takes NULL / boolean operands; the general form
+        # (e.g. SQLite's `a IS b`) is a NULL-safe equality
+        rhs = expression.expression
+        if isinstance(rhs, (exp.Null, exp.Boolean, exp.JSON)):
+            return super().is_sql(expression)
+
+        return self.sql(exp.NullSafeEQ(this=expression.this, expression=rhs))
+
     def join_sql(self, expression: exp.Join) -> str:
         if (
             not expression.args.get("using")
